@@ -22,6 +22,16 @@ def impl_validate(rts, doc):
     return (vd.is_valid, vd.num_failures, vd.num_rules_tested, [obs_rule_test(t) for t in vd.rule_tests], vd.cast_data)
 
 
+def impl_validate_schema(s, doc):
+    vd = s.validate(copy_value(doc))
+    return (vd.is_valid, vd.num_failures, vd.num_rules_tested, [obs_rule_test(t) for t in vd.rule_tests], vd.cast_data)
+
+
+def impl_validate_schema_nocopy(s, doc):
+    vd = s.validate(doc)
+    return (vd.is_valid, vd.num_failures, vd.num_rules_tested, [obs_rule_test(t) for t in vd.rule_tests], vd.cast_data)
+
+
 def schema_coq(rts):
     tags = Tags()
     return "[" + "; ".join(rt.coq(tags) for rt in rts) + "]"
